@@ -392,7 +392,12 @@ pub fn wait_until(site: &'static str, mut cond: impl FnMut() -> bool) {
     }
 }
 
-pub fn spawn_token() -> u64 {
+thread_local! {
+    /// token handed out by `spawn_token` on this thread and not yet bound to a new OS thread
+    static PENDING: Cell<(u64, u64)> = const { Cell::new((0, 0)) };
+}
+
+fn new_token() -> u64 {
     let mut g = SCHED.lock().unwrap();
     match g.as_mut() {
         Some(s) if my_id().is_some() => {
@@ -400,6 +405,32 @@ pub fn spawn_token() -> u64 {
             s.threads.len() as u64 // id + 1
         }
         _ => 0,
+    }
+}
+
+/// Hook in the code under test / harness, called right before it spawns a thread.
+pub fn spawn_token() -> u64 {
+    let t = new_token();
+    PENDING.with(|p| p.set((epoch(), t)));
+    t
+}
+
+/// Called by the interposed `pthread_create`: the token the spawning code announced, or a fresh
+/// one if the code spawns without announcing (0 = the creator is not scheduler-controlled).
+pub fn token_for_new_thread() -> u64 {
+    let (e, t) = PENDING.with(|p| p.replace((0, 0)));
+    if t != 0 && e == epoch() {
+        return t;
+    }
+    new_token()
+}
+
+pub fn thread_never_started(token: u64) {
+    let mut g = SCHED.lock().unwrap();
+    if let Some(s) = g.as_mut() {
+        if let Some(t) = s.threads.get_mut((token - 1) as usize) {
+            *t = St::Done;
+        }
     }
 }
 
